@@ -61,6 +61,8 @@ pub const WORDS: &[&str] = &[
     "wrold", "teh", "recieve", "helo", "nieghbor", "beautifull", "anwser", "quik", "discused", "freind", "harperls",
     "kubectl", "Zxqv", "GitHub", "Github", "GITHUB", "naïvité", "Zürichx", "foo-bar", "O'Reillyx", "O’Reillyx", "x86_64ish",
     "日本語x", "émigréx", "ﬁancéx", "Ωmega", "don'tx", "hello%world", "a", "Teh",
+    // reduplications and other words with unusual letter statistics
+    "kuku", "yoyo", "zaza", "Mimi", "bonbonx", "xx", "aaa", "zzzzzz",
 ];
 
 /// More hostile to position arithmetic: astral and combining characters before lints.
